@@ -183,6 +183,12 @@ __CPROVER_ensures(__CPROVER_return_value == SPEC_VALID(e, v.type, v.value, RT_DU
    && __CPROVER_rw_ok((a)->mem, (size_t)(a)->size * sizeof(RegisterAtom)) \
    && !__CPROVER_same_object((a)->mem, (a)))
 
+/* word k of the transfer, for every k (ghost g_k) and, spelled out, for the
+ * first four words (one register) */
+#define RT_COPIED(dst, src, n, k) IMPLIES((k) < (n), (dst)[k] == (src)[k])
+#define RT_COPIED4(dst, src, n) \
+  (RT_COPIED(dst, src, n, 0u) && RT_COPIED(dst, src, n, 1u) && RT_COPIED(dst, src, n, 2u) && RT_COPIED(dst, src, n, 3u))
+
 RegisterAccess reg_mem_read(const RegisterArea *a, RegisterAtom *dest,
                             RegisterOffset offset, RegisterOffset n)
 __CPROVER_requires(RT_MEM_OK(a, offset, n))
@@ -191,6 +197,7 @@ __CPROVER_requires(!__CPROVER_same_object(dest, a->mem) && !__CPROVER_same_objec
 __CPROVER_assigns(n > 0u: __CPROVER_object_upto(dest, (size_t)n * sizeof(RegisterAtom)))
 __CPROVER_ensures(__CPROVER_return_value.code == REG_ACCESS_SUCCESS)
 __CPROVER_ensures(IMPLIES(g_k < n, dest[g_k] == a->mem[(size_t)offset + g_k]))
+__CPROVER_ensures(RT_COPIED4(dest, a->mem + offset, n))
 ;
 
 RegisterAccess reg_mem_write(RegisterArea *a, const RegisterAtom *src,
@@ -201,6 +208,7 @@ __CPROVER_requires(!__CPROVER_same_object(src, a->mem))
 __CPROVER_assigns(n > 0u: __CPROVER_object_upto(a->mem + offset, (size_t)n * sizeof(RegisterAtom)))
 __CPROVER_ensures(__CPROVER_return_value.code == REG_ACCESS_SUCCESS)
 __CPROVER_ensures(IMPLIES(g_k < n, a->mem[(size_t)offset + g_k] == src[g_k]))
+__CPROVER_ensures(RT_COPIED4(a->mem + offset, src, n))
 __CPROVER_ensures(IMPLIES(g_j < a->size && (g_j < offset || g_j - offset >= n),
     a->mem[RT_CLW(g_j, a->size)] == __CPROVER_old(a->mem[RT_CLW(g_j, a->size)])))
 ;
